@@ -71,3 +71,11 @@ Definition ts_ok (tsigs : list (Z * Z * Z)) (first last : Z) : Prop :=
 Definition pre (tsigs : list (Z * Z * Z)) (first last : Z) (ex : list (Z * Z)) (div : Z) : Prop :=
   ts_ok tsigs first last /\ ex_ok_all ex (stretches div tsigs first last).
 
+
+(* existing measures are listed in time order and do not overlap *)
+Definition ex_sorted (ex : list (Z * Z)) : Prop := StronglySorted (fun x y => snd x <= fst y) ex.
+
+(* the signature row whose stretch this is, and no signature row starts strictly inside the stretch *)
+Definition stretch_in_force (div : Z) (rows : list (Z * Z * Z)) (s : Z * Z * Q) : Prop :=
+  exists b bt, In (fst (st_span s), b, bt) rows /\ st_bl s = barlen div b bt
+               /\ forall r, In r rows -> ~ (fst (st_span s) < row_t r < snd (st_span s)).
